@@ -71,3 +71,35 @@ pub open spec fn c40_shape_at(rest0: Seq<u8>, kl: int, prod: Seq<u8>, t: bool) -
 pub open spec fn c40_run_shape(rest0: Seq<u8>, k: int, prod: Seq<u8>, t: bool) -> bool {
     c40_shape_at(rest0, k, prod, t) || c40_shape_at(rest0, k + 1, prod, t)
 }
+
+// ---- 5.2.5.2: how a C40 / Text run ends (what handle_end may append), as a function of
+//   pend   the values of complete characters not yet written (0, 1 or 2; three make a codeword pair),
+//   nrest  the number of characters still to come (0 = end of the data), two = they are exactly two digits,
+//   last1  the last character taken needs one ASCII codeword,
+//   fl(e)  the codewords that stay free in the smallest fitting symbol once e more codewords are written (None: no symbol fits).
+// End of the data: b) two values pending and two codewords free: pad with Shift 1 (0), no unlatch; c) one value pending and two
+// codewords free: unlatch, the last character goes to ASCII; d) one value pending, one codeword free: the last character goes
+// to ASCII without unlatch; otherwise pending values are completed to a triple by shift values (a dangling Shift 2 / Upper Shift
+// produces no character) and the unlatch codeword 254 follows if a codeword is free.  In front of exactly two digits the unlatch is left
+// out exactly when only the one codeword of the digit pair is free.  More characters to come: pad, then always unlatch.
+pub open spec fn c40_pad(pend: Seq<u8>) -> Seq<u8> {
+    if pend.len() == 0 { Seq::<u8>::empty() }
+    else if pend.len() == 1 { pack3(pend[0] as int, 1, 30) }
+    else { pack3(pend[0] as int, pend[1] as int, 1) }
+}
+pub open spec fn opt254(yes: bool) -> Seq<u8> { if yes { seq![254u8] } else { Seq::<u8>::empty() } }
+pub open spec fn c40_tail(pend: Seq<u8>, nrest: int, two: bool, last1: bool, fl: spec_fn(int) -> Option<int>) -> Option<Seq<u8>> {
+    let n = pend.len() as int;
+    let w = if n > 0 { 2int } else { 0int };
+    if nrest == 0 && fl(n) is None { None }
+    else if nrest == 0 && n == 2 && fl(2) == Some(0int) { Some(pack3(pend[0] as int, pend[1] as int, 0)) }
+    else if nrest == 0 && n == 1 && fl(1) == Some(1int) { Some(seq![254u8]) }
+    else if nrest == 0 && n == 1 && fl(1) == Some(0int) && last1 { Some(Seq::<u8>::empty()) }
+    else if nrest == 2 && two { match fl(w + 1) { None => None, Some(s) => Some(c40_pad(pend) + opt254(s >= 1)) } }
+    else if nrest > 0 { Some(c40_pad(pend).push(254u8)) }
+    else { match fl(w) { None => None, Some(s) => Some(c40_pad(pend) + opt254(s > 0)) } }
+}
+// the last character is handed back to ASCII in the cases c) and d)
+pub open spec fn c40_hands_back(pend: Seq<u8>, nrest: int, last1: bool, fl: spec_fn(int) -> Option<int>) -> bool {
+    nrest == 0 && pend.len() == 1 && (fl(1) == Some(1int) || (fl(1) == Some(0int) && last1))
+}
